@@ -267,7 +267,8 @@ func runUpload(t *testing.T, tape *simrt.Tape, env dst.Env) *simrt.Outcome {
 				viol("C32.part-size", "part-size", "part %d of %d has %d bytes, expected %d", r.id, n, r.n, want)
 			}
 		}
-		if !explicit && n > partsLimit {
+		// (automatic sizing needs the size: nothing can be chosen for a stream of unknown length)
+		if !explicit && known && n > partsLimit {
 			viol("C32.parts-limit", "parts-limit", "automatic part sizing produced %d parts", n)
 		}
 		wantBig := size > smallLimit || !known
